@@ -377,6 +377,13 @@ FromIdentThenDefault ==
 
 C10_Iff == (Done /\ ~FromIdentThenDefault) => ((Result = <<>>) <=> WellFormed)
 C10_AllOfScope == (Done /\ Result # <<>> /\ ~FromIdentThenDefault) => \A v \in ReportedScope : Covered(v, Result)
+\* the documented option conflicts are reported rule by rule: the conflict rules of the reported scope can be assigned
+\* distinct diagnostics, each at one of its rule's offending positions (two conflicts at the same option take two)
+ConflictRules == {"flatten+rename", "flatten+with", "flatten+skip", "flatten+multiple", "map+and_then"}
+OwnDiagnostic(vs, ds) ==
+  \E f \in [vs -> 1..Len(ds)] : (\A v, w \in vs : v # w => f[v] # f[w]) /\ (\A v \in vs : ds[f[v]].pos \in v.where)
+C10_EachConflict == (Done /\ Result # <<>> /\ ~FromIdentThenDefault) =>
+  LET cs == {v \in ReportedScope : v.rule \in ConflictRules} IN Cardinality(cs) < 2 \/ OwnDiagnostic(cs, Result)
 C10_NoInvented == (Done /\ Result # <<>> /\ ~FromIdentThenDefault) => \A i \in 1..Len(Result) : Explained(Result[i], AllViolations)
 
 EmitDone == (EMIT /\ Done) =>
@@ -385,6 +392,7 @@ EmitDone == (EMIT /\ Done) =>
                   expect |-> [impl |-> WellFormed,
                               scope |-> [v \in 1..Cardinality(ReportedScope) |-> "x"],
                               must_cover |-> SetToSeq({SetToSeq(v.where) : v \in ReportedScope}),
+                              own |-> SetToSeq({SetToSeq(v.where) : v \in {v \in ReportedScope : v.rule \in ConflictRules}}),
                               may_sit |-> SetToSeq(UNION {v.where : v \in AllViolations})],
                   model |-> Result])
 =============================================================================
